@@ -29,6 +29,7 @@ def opC19 (j : Json) : Except String Json := do
     ("regex", patternJson (pathRegex segs)),
     ("built", jstr built),
     ("parsed_built", kvJson (parse t segs built)),
+    ("rebuilt", optJson jstr (buildKw segs (parse t segs built))),
     ("parsed", jarr (paths.map fun p => kvJson (parse t segs p)))])
 
 
